@@ -3,11 +3,14 @@
 Coq (coq/C13): state machine of initTaskingSystem / numTaskingThreads over `option handle` with, per
 backend, the library state deciding the limit (TBB: multiset of live global_control objects; OpenMP: last
 omp_set_num_threads; Internal: the enkiTS scheduler's thread count and live workers; Debug: 1).
+Tie C: the guards / statement lists / query kinds of the handle constructor, num_threads, numTaskingThreads,
+initTaskingSystem, initTaskSystemInternal and StartThreads are re-extracted from the clang AST on every run
+(tools/c13facts -> coq/C13/gen/Facts.v) and PropertiesSrc.v proves that their interpretation IS the hand model.
 Tie B: harness per backend; every history of initTaskingSystem over n in {-1,0,1,2,3,hw,2hw} (length <= 3
 exhaustively, length 4 sampled / exhaustive in thorough) is run in a fresh (forked) process and the reported
 numbers are diffed with the extracted model; then parallel_for under each limit with an atomic
 "currently inside" counter and a set of thread ids (oracle: max inside <= n, #ids <= n, every index once)."""
-import itertools, os
+import itertools, os, sys
 import vlib
 
 BACKENDS = ["debug", "internal", "tbb", "omp"]
@@ -89,12 +92,35 @@ def run_batch(ctx, exe, mode, cases, b, timeout=300):
                           {"backend": b, "mode": mode, "case": cases[i], "observed": [l] + rec["reruns"], "diagnosis": rec["diagnosis"],
                            "required": "initTaskingSystem / parallel_for return and the thread count can be observed"})
         ctx.cov.setdefault("transient_hangs", []).append(rec)
+        try:   # keep the diagnosis (gdb backtrace of the hung child) beyond the next run's evidence file
+            import json, time
+            with open(os.path.join(ctx.replays, "C13-hangdiag-%d-%d.json" % (int(time.time()), i)), "w") as fh:
+                json.dump(rec, fh, indent=1)
+        except Exception:
+            pass
         ctx.log("HANG on %s %s case [%s]: %s" % (b, mode, cases[i], rec["verdict"]))
     return rc, lines, err
 
 
+def gen_facts(ctx):
+    """Tie C: re-extract the fact table from the clang AST of the current tree (coq/C13/gen/Facts.v)."""
+    out = os.path.join(ctx.coqdir, "gen", "Facts.v")
+    cmd = [sys.executable, os.path.join(ctx.verif, "tools", "c13facts", "gen_facts.py"), ctx.repo, ctx.include_dir(), out,
+           os.path.join(ctx.build, "ast")]
+    rc, o = vlib.sh(cmd, timeout=300)
+    ctx.log("fact table: " + o.strip()[-700:])
+    if rc != 0:
+        if os.path.exists(out):
+            os.remove(out)          # never let a stale table stand in for the current tree
+        ctx.broken.append("fact extraction from the clang AST failed: " + o.strip()[-300:])
+        return None
+    ctx.cov["source_facts"] = o.strip()
+    return o
+
+
 def run(ctx):
-    ctx.coq_check(("Properties.v",))
+    gen_facts(ctx)
+    ctx.coq_check(("Properties.v", "PropertiesSrc.v"))
     model = ctx.extract()
     jobs = [dict(sources=["harness.cpp"], out="h_" + b, backend=b, sanitize="asan") for b in BACKENDS]
     exes = ctx.cxx_many(jobs)
@@ -128,7 +154,7 @@ def run(ctx):
         exh = ctx.pick(3, 4)
         seqs = [list(t) for k in range(1, exh + 1) for t in itertools.product(vals, repeat=k)]
         if not ctx.thorough():
-            seqs += [[r.choice(vals) for _ in range(4)] for _ in range(300)]
+            seqs += [[r.choice(vals) for _ in range(4)] for _ in range(150)]
         cases = [" ".join(map(str, s)) for s in seqs]
         mcases = ["%s %d %s" % (b, model_hw if b != "debug" else 16, c) for c in cases]
         rc, hl, herr = run_batch(ctx, hx[b], "seq", cases, b, timeout=ctx.pick(300, 1200))
@@ -231,15 +257,18 @@ def run(ctx):
                 "{-1,0,1,2,3,hw,2hw} up to length %d%s diffed with the extracted model; parallel_for under limits {1,2,3,(4,)hw,2hw} x sizes "
                 "{n,10n,10^4} x body {0,50us,uneven} and after re-initialisation. non-trivial = a history with >= 2 inits of different n, "
                 "or a loop in which >= 2 threads were observed inside the body at once"
-                % (ctx.pick(3, 4), "" if ctx.thorough() else " (+300 random of length 4)"))
+                % (ctx.pick(3, 4), "" if ctx.thorough() else " (+150 random of length 4)"))
     ctx.sample({"hardware_defaults": hws})
-    ctx.trusted += ["harness/C13/harness.cpp (g++ -O1, ASan+UBSan, fork per case), generators and oracles in props/C13/check.py"]
+    ctx.trusted += ["tools/c13facts/gen_facts.py + clang 14 -ast-dump=json (one dump of tasking_system_init.cpp per backend define, TaskSys.cpp, "
+                    "enkiTS/TaskScheduler.cpp): the fact table whose interpretation (coq/C13/FactsSem.v) is proved equal to the hand model "
+                    "(PropertiesSrc.v); validated by the differential run observing the behaviour the facts predict",
+                    "harness/C13/harness.cpp (g++ -O1, ASan+UBSan, fork per case), generators and oracles in props/C13/check.py"]
     ctx.assumptions += [
         "ORACLES: that tbb::global_control(max_allowed_parallelism) and omp_set_num_threads ENFORCE their limit is their contract "
         "(measured: max threads inside a parallel_for body); tbb::global_control::active_value = min of live controls or the default",
         "hw (the backend's hardware default) is a Section variable, assumed > 0 and probed per backend at run time",
-        "Internal: TaskScheduler::StartThreads creates m_NumThreads-1 workers and the destructor joins them (read from TaskScheduler.cpp, "
-        "not re-derived); loops are issued from the initialising thread",
+        "Internal: StartThreads' loop bounds, GetNumTaskThreads and Initialize are re-derived from the AST each run; that ~TaskScheduler joins "
+        "the old workers is read from TaskScheduler.cpp, not re-derived; loops are issued from the initialising thread",
     ]
     if ctx.thorough():
-        ctx.coq_thorough_chk(["C13.Properties"])
+        ctx.coq_thorough_chk(["C13.Properties", "C13.PropertiesSrc"])
